@@ -60,15 +60,16 @@ def const_matrix(m):
     return [[m.get(r, c).c for c in range(m.C)] for r in range(m.R)]
 
 
-def extract(F, variant):
+def extract(F, variant, key=None):
     """Tables of the (first) owning tangent type of the driver `variant`.  Raises AnalysisBroken
     if an anchor function vanished or evaluates to TOP (never a pass)."""
     T = GroupTables()
     tcs = owning_tangent_classes(F)
     # the driver's own tangent = the class whose group is the variant
-    want = {"R3": "manif::RnTangent<double,3>", "R1": "manif::RnTangent<double,1>", "R9": "manif::RnTangent<double,9>"}
-    key = None
+    want = {"R%d" % i: "manif::RnTangent<double,%d>" % i for i in range(1, 10)}
     for k in sorted(tcs):
+        if key is not None:
+            break
         if "<double" not in k:
             continue
         base = k.split("<")[0].split("::")[-1]
